@@ -167,7 +167,7 @@ def _bisection(R, F, d, hname):
     R.ob(mids >= 1, "GUARD", d.where(), "GUARD|%s|midpoint" % hname, "the probe is not the midpoint (lower + upper) / 2", sample={"rule": "GUARD", "fn": hname, "row": "mid = (lower+upper)/2"})
     # height re-check precedes Ok return: a second parse_block_number after the final confirmation, compared with the first
     pb = [c for c in d.calls() if (c.method or "") == "parse_block_number" and not d.is_cleanup(c.bb)]
-    R.ob(len(pb) >= 2 and any(d.dominates(a.bb, c.bb) and a.bb != c.bb for a in after for c in pb), "DOM-order", d.where(), "DOM-order|%s|height-recheck" % hname,
+    R.ob(len(pb) >= 2 and any(d.sdominates(a.bb, c.bb) and a.bb != c.bb for a in after for c in pb), "DOM-order", d.where(), "DOM-order|%s|height-recheck" % hname,
          "%s does not re-read the block height after the final confirmation" % hname, sample={"rule": "DOM-order", "fn": hname, "step": "height re-check after confirmation"})
 
 
@@ -186,7 +186,7 @@ def _bisection_split(R, F, d, pc, hv, hname):
     rc_h = [c for c in hv.calls() if (c.method or "") in ("read_contract", "read_contract_multi") and not hv.is_cleanup(c.bb)]
     inside = [c for c in rc_h if c.bb in body]
     rc = [c for c in d.calls() if (c.method or "") in ("read_contract", "read_contract_multi") and not d.is_cleanup(c.bb)]
-    after = [c for c in rc if d.dominates(pc.bb, c.bb) and c.bb != pc.bb]
+    after = [c for c in rc if d.sdominates(pc.bb, c.bb) and c.bb != pc.bb]
     R.ob(bool(inside), "DOM", hv.where(), "DOM|%s|probe" % hname, "no simulation inside the bisection loop")
     R.ob(bool(after), "DOM-all", d.where(), "DOM-all|%s|final-confirmation" % hname, "%s returns an estimate without a final confirmation run after the bisection" % hname,
          sample={"rule": "DOM-all", "fn": hname, "step": "final read_contract(estimate) after the awaited search"})
@@ -201,7 +201,7 @@ def _bisection_split(R, F, d, pc, hv, hname):
                     mids += 1
     R.ob(mids >= 1, "GUARD", hv.where(), "GUARD|%s|midpoint" % hname, "the probe is not the midpoint (lower + upper) / 2", sample={"rule": "GUARD", "fn": hname, "row": "mid = (lower+upper)/2"})
     pb = [c for c in d.calls() if (c.method or "") == "parse_block_number" and not d.is_cleanup(c.bb)]
-    R.ob(len(pb) >= 2 and any(d.dominates(a.bb, c.bb) and a.bb != c.bb for a in after for c in pb), "DOM-order", d.where(), "DOM-order|%s|height-recheck" % hname,
+    R.ob(len(pb) >= 2 and any(d.sdominates(a.bb, c.bb) and a.bb != c.bb for a in after for c in pb), "DOM-order", d.where(), "DOM-order|%s|height-recheck" % hname,
          "%s does not re-read the block height after the final confirmation" % hname, sample={"rule": "DOM-order", "fn": hname, "step": "height re-check after confirmation"})
 
 
@@ -218,9 +218,9 @@ def _returned_is_confirmed(R, F, d, hname, after):
     sinks_all = [c for c in d.calls() if (c.path or "").endswith("::new_lower_hex") and "Argument" in (c.path or "") and not d.is_cleanup(c.bb)]
     cf = None
     for a in after:
-        if any(d.dominates(a.bb, c.bb) and a.bb != c.bb for c in sinks_all):
+        if any(d.sdominates(a.bb, c.bb) and a.bb != c.bb for c in sinks_all):
             cf = a
-    sinks = [c for c in sinks_all if cf is not None and d.dominates(cf.bb, c.bb) and cf.bb != c.bb]
+    sinks = [c for c in sinks_all if cf is not None and d.sdominates(cf.bb, c.bb) and cf.bb != c.bb]
     # `figures.into_iter().map(|gas| format!("0x{:x}", gas))`: the formatting sits in a closure handed to an iterator adapter;
     # the adapter call is the sink, what it iterates is what is returned, and the closure itself must not compute
     cl_bad = []
@@ -245,9 +245,9 @@ def _returned_is_confirmed(R, F, d, hname, after):
                                         (payload.get("k") == "call" and ty in INT_TYPES):
                                     cl_bad.append((l, payload.get("line") or (payload.get("loc") or {}).get("l")))
         for a in after:
-            if any(d.dominates(a.bb, c.bb) and a.bb != c.bb for c in adapter_sinks):
+            if any(d.sdominates(a.bb, c.bb) and a.bb != c.bb for c in adapter_sinks):
                 cf = a
-        sinks = [c for c in adapter_sinks if cf is not None and d.dominates(cf.bb, c.bb) and cf.bb != c.bb]
+        sinks = [c for c in adapter_sinks if cf is not None and d.sdominates(cf.bb, c.bb) and cf.bb != c.bb]
     R.ob(bool(sinks), "ANCHOR", d.where(), "ANCHOR|%s|hex-result" % hname, "%s: no hex-formatted figure is produced after the final confirmation run" % hname)
     if not sinks:
         return
